@@ -1293,6 +1293,30 @@ func corpus(thorough bool) []*Scenario {
 			}
 		}
 	}
+	// simultaneous close: one end closes its Mux (which closes the sessions of a shared underlay one after the other, each
+	// with its bounded graceful wait, after the underlay's connection has been told to fail reads and writes) while the
+	// other end closes the same sessions a little later: the later close requests are processed by an end whose writes
+	// already fail (error path of the close response).  Every Close and every blocked Read still has to return.
+	for _, tp := range []string{"tcp", "udp"} {
+		for _, mk := range []string{"CMux", "SMux"} {
+			other := map[string]string{"CMux": "s", "SMux": "c"}[mk]
+			for _, off := range []int{100, 300, 1200} {
+				if !thorough && off == 100 {
+					continue
+				}
+				sc := &Scenario{Transport: tp, NSess: 3, OneUnderlay: true, HorizonMs: 12000,
+					Kind: fmt.Sprintf("simultaneous-close-%s-%dms", strings.ToLower(mk), off)}
+				for i := 0; i < 3; i++ {
+					sc.Ops = append(sc.Ops, Op{Sess: i, End: "c", Role: "R", At: 0, Kind: "Read"}, Op{Sess: i, End: "s", Role: "R", At: 0, Kind: "Read"})
+					if i < 2 {
+						sc.Ops = append(sc.Ops, Op{Sess: i, End: other, Role: "C", At: 500 + off + 10*i, Kind: "Close"})
+					}
+				}
+				sc.Ops = append(sc.Ops, Op{End: "x", Role: "C", At: 500, Kind: mk}, Op{End: "x", Role: "C", At: 6000, Kind: mk})
+				out = append(out, sc)
+			}
+		}
+	}
 	// the public API: apis/client Stop and apis/server Stop with blocked calls at both ends, repeated Stop
 	for _, tp := range []string{"tcp", "udp"} {
 		for _, mk := range []string{"CMux", "SMux"} {
